@@ -342,6 +342,20 @@ func ruleIndexDiscipline(cx *Ctx) []Obligation {
 						work = append(work, callee)
 					}
 				}
+				// functions handed on as values (a conversion passed to a generic map helper, a closure)
+				for _, op := range ins.Operands(nil) {
+					if op == nil || *op == nil {
+						continue
+					}
+					switch fv := (*op).(type) {
+					case *ssa.Function:
+						work = append(work, fv)
+					case *ssa.MakeClosure:
+						if cf, ok := fv.Fn.(*ssa.Function); ok {
+							work = append(work, cf)
+						}
+					}
+				}
 			}
 		}
 	}
@@ -419,6 +433,58 @@ func ruleIndexDiscipline(cx *Ctx) []Obligation {
 			}
 		}
 	}
+	// unconditional copy: the decoder has no data-dependent skip — every store, append and call of a decoding
+	// function executes on every path, once per iteration of its loops (a `continue` or `if` around part of the copy,
+	// taken for some shapes of the document only, would leave the zero value in place of document data)
+	for _, f := range fns {
+		if len(f.Blocks) == 0 || (fnPkgShort(f) != "variables" && fnPkgShort(f) != "goldilocks") {
+			continue
+		}
+		fi := GetFnInfo(f)
+		if efi := fnInfoModuloEmptyInput(f); efi != nil {
+			fi = efi
+		}
+		key := "C19/O19.6/unconditional-copy/" + P.FnName(f)
+		desc := "the decoder copies unconditionally: every store, append and call in a decoding function executes on every non-refusing path, once per iteration of its loops (no `continue` / `if` that skips part of the copy for some document shapes)"
+		var cond []string
+		n := 0
+		for _, b := range f.Blocks {
+			if fi.Refuse[b.Index] {
+				continue
+			}
+			acts := false
+			var at token.Pos
+			for _, ins := range b.Instrs {
+				switch x := ins.(type) {
+				case *ssa.Store:
+					acts, at = true, x.Pos()
+				case *ssa.Call:
+					if bi, ok := x.Common().Value.(*ssa.Builtin); ok && bi.Name() != "append" {
+						continue
+					}
+					acts, at = true, x.Pos()
+				case *ssa.MapUpdate:
+					acts, at = true, x.Pos()
+				}
+			}
+			if !acts {
+				continue
+			}
+			n++
+			if !fi.MustBlock(b) {
+				cond = append(cond, P.Pos(at))
+			}
+		}
+		if n == 0 {
+			continue
+		}
+		if len(cond) > 0 {
+			sort.Strings(cond)
+			obs = append(obs, bad(key, desc, "executed only on some paths / iterations: "+strings.Join(dedup(cond), ", "), P.FnName(f)))
+		} else {
+			obs = append(obs, good(key, desc, fmt.Sprintf("%s: %d blocks with stores/calls, all unconditional", P.FnName(f), n)))
+		}
+	}
 	// raw 64-bit leaves become variables as they are: the argument of gl.NewVariable in the decoder is the loaded
 	// document value itself, not the result of a computation on it (a reduction would merge v and v+p)
 	nv := P.Func("goldilocks", "NewVariable")
@@ -477,7 +543,7 @@ func ruleIndexDiscipline(cx *Ctx) []Obligation {
 			}
 		}
 	}
-	if nWrap < 4 {
+	if nWrap < 1 {
 		obs = append(obs, undecided("C19/O19.5/raw-u64-identity/floor", "the decoder's variable constructors are found", fmt.Sprintf("%d calls of gl.NewVariable in the decoder (4 confirmed by hand)", nWrap)))
 	}
 	if nLoops < 5 {
@@ -719,4 +785,69 @@ func freshTargets(P *Program, f *ssa.Function, at ssa.Instruction, tgt ssa.Value
 		return out
 	}
 	return []decodeLeaf{{fn: f, why: "the decode target is " + tgt.String() + ", not a fresh local", site: site}}
+}
+
+// fnInfoModuloEmptyInput: for a conversion helper `func(list) result` whose only early return is
+// `if len(list) == 0 { return nil }` on its own list parameter — the list every loop of the function ranges over —
+// the must-execute facts are computed with that return treated as a refusal: it skips a copy of zero elements.
+func fnInfoModuloEmptyInput(f *ssa.Function) *FnInfo {
+	var lists []*ssa.Parameter
+	for _, p := range f.Params {
+		if _, ok := p.Type().Underlying().(*types.Slice); ok {
+			lists = append(lists, p)
+		}
+	}
+	if len(lists) != 1 {
+		return nil
+	}
+	list := lists[0]
+	found := false
+	for _, b := range f.Blocks {
+		if !emptyListReturn(b) {
+			continue
+		}
+		// the tested list is the parameter, and the early return hands back nil / zero values only
+		iff := b.Preds[0].Instrs[len(b.Preds[0].Instrs)-1].(*ssa.If)
+		cmp := iff.Cond.(*ssa.BinOp)
+		okList := false
+		for _, side := range []ssa.Value{cmp.X, cmp.Y} {
+			if l, ok := lenOfVal(side); ok && l == ssa.Value(list) {
+				okList = true
+			}
+		}
+		ret := b.Instrs[len(b.Instrs)-1].(*ssa.Return)
+		for _, r := range ret.Results {
+			if c, ok := r.(*ssa.Const); !ok || c.Value != nil {
+				okList = false
+			}
+		}
+		if !okList {
+			return nil
+		}
+		found = true
+	}
+	if !found {
+		return nil
+	}
+	// every loop ranges over that list
+	base := GetFnInfo(f)
+	for _, l := range base.Loops {
+		if l.Bound == nil {
+			return nil
+		}
+		if lv, ok := lenOfVal(l.Bound); !ok || lv != ssa.Value(list) {
+			return nil
+		}
+	}
+	saved, had := fnInfoCache[f]
+	delete(fnInfoCache, f)
+	vacuousExitFns[f] = true
+	fi := GetFnInfo(f)
+	delete(vacuousExitFns, f)
+	if had {
+		fnInfoCache[f] = saved
+	} else {
+		delete(fnInfoCache, f)
+	}
+	return fi
 }
